@@ -507,6 +507,7 @@ impl World {
         let before_state = rc.real.as_ref().unwrap().seq_state();
         let mut buf = body.clone();
         let ledger_before = if p == P::C16 && single { Some(ledger_all()) } else { None };
+        let nonce_before = if p == P::C16 && !single { Some(hpke::verif::ledger(1)) } else { None };
         let res: Res<Vec<u8>> = match api {
             OpenApi::Alloc => rc.real.as_mut().unwrap().open(&whole, aad),
             OpenApi::InPlace => rc.real.as_mut().unwrap().open_in_place(&mut buf, aad, &tag).map(|_| buf.clone()),
@@ -531,6 +532,34 @@ impl World {
                         return Err(viol("drop.not-run", format!("single-shot open ({}): the temporary receiver context's {} is dropped and wiped before the call returns", out_class_s(&res), LEDGER_NAMES[k]), "no drop recorded".into()));
                     }
                 }
+            }
+        }
+        let mut nonce_rule: Option<(u64, u64)> = None;
+        if let Some((d0, z0)) = nonce_before {
+            // per-message nonce temporaries: a rejected open must wipe as many of them as a
+            // successful one does (relative rule: no assumption about how many there are)
+            let (d1, z1) = hpke::verif::ledger(1);
+            if z1 != z0 {
+                return Err(viol("drop.ledger-dirty", "every dropped AeadNonce buffer is all-zero".into(), "non-zero bytes left".into()));
+            }
+            let slot = if detached { 1 } else { 0 };
+            let delta = d1 - d0;
+            match &res {
+                Ok(_) => {
+                    let cur = self.nonce_drops_ok[slot];
+                    self.nonce_drops_ok[slot] = Some(cur.map(|c| c.min(delta)).unwrap_or(delta));
+                }
+                Err(Fail::Hpke(E::OpenError)) if whole.len() >= nt && tag.len() == nt => {
+                    if let Some(okd) = self.nonce_drops_ok[slot] {
+                        nonce_rule = Some((okd, delta));
+                    }
+                }
+                _ => {}
+            }
+        }
+        if let Some((okd, delta)) = nonce_rule {
+            if delta < okd {
+                return Err(viol("drop.per-message-nonce-not-wiped-on-rejected-open", format!("{} AeadNonce buffers wiped, as on a successful open through the same interface", okd), format!("{}", delta)));
             }
         }
         let pc = pos_class(pseq, pover);
